@@ -29,10 +29,12 @@ class C16(Plugin):
     rule = ("case = (strict converter, one of pd_compress / pd_expand / pd_standardize_prefix / _curie / _uri or file_compress / file_expand, "
             "flags strict / passthrough / ambiguous, a table of 0..8 rows x 1..4 string cells, column index, optional target column, optional "
             "header, tab or custom separator). Cells: URIs, CURIEs, unknown and malformed strings, empty cells. For files the first failing row is "
-            "placed at every position, including short rows; the bytes on disk are compared after a failing call. "
+            "placed at every position, including short rows; the bytes on disk are compared after a failing call. The expected table is "
+            "the generic bulk model applied to the implementation's own scalar answers on the cells of the column (observed in the same run). "
             "Non-trivial: >= 2 rows and (a failing cell or a None result or a target column).")
     assumptions = ["pandas dtype / NA behaviour and csv quoting are runtime; cells avoid tab, newline and quote characters",
-                   "the observation vector of the model is the specification (element-wise scalar calls of the proved query model)"]
+                   "the observation vector of the model is the specification: the generic bulk model (proved for every scalar function) applied to "
+                   "the scalar answers the implementation itself gives; whether those scalar answers are right is C01-C08's business"]
 
     def generate(self, rng, n):
         for _ in range(n):
@@ -65,11 +67,22 @@ class C16(Plugin):
 
         import curies
 
-        recs, d, tag, (st, pa, am), rows, col, target, header, mode = case
+        recs, d, tag, (st, pa, am), rows, col, target, header, mode = case[:9]
         c = curies.Converter(qprops.mk_records(recs), delimiter=d)
         kw = dict(strict=bool(st), passthrough=bool(pa))
         if tag < 2:
             kw["ambiguous"] = bool(am)
+        # "element-wise" is judged against what the implementation's own scalar method answers on each cell of the column
+        # (the method that C16_scalar names for this operation and these flags); the answers travel with the case
+        if tag == 0:
+            sf = c.compress_or_standardize if am else c.compress
+        elif tag == 1:
+            sf = c.expand_or_standardize if am else c.expand
+        else:
+            sf = getattr(c, FN[tag])
+        cells = list(dict.fromkeys(r[col] for r in rows if len(r) > col))
+        table = [[x, qprops.outcome(lambda: sf(x, strict=bool(st), passthrough=bool(pa)), qprops.v_ostr)] for x in cells]
+        case = list(case[:9]) + [table]
         if mode == 0:
             ncols = max([len(r) for r in rows], default=col + 1)
             df = pd.DataFrame(rows, columns=list(range(ncols))) if rows else pd.DataFrame({j: pd.Series([], dtype=object) for j in range(ncols)})
